@@ -292,12 +292,13 @@ func checkC12(e *Engine, r *Report) {
 		}
 	}
 	// BL scenario A: the balloon type sets PinMemory=false
-	isDefPinMemPtr := func(v ssa.Value) bool {
+	var isDefPinMemPtrD func(v ssa.Value, depth int) bool
+	isDefPinMemPtrD = func(v ssa.Value, depth int) bool {
 		if isLoadOfField(v, c.fDefPinMem) {
 			return true
 		}
-		// a parameter through which every caller passes BalloonDef.PinMemory
-		if pi := paramIndex(v); pi >= 0 {
+		// a parameter through which every caller passes BalloonDef.PinMemory (possibly through its own such parameter)
+		if pi := paramIndex(v); pi >= 0 && depth < 3 {
 			fn := valueFn(v)
 			if fn == nil {
 				return false
@@ -308,7 +309,7 @@ func checkC12(e *Engine, r *Report) {
 			}
 			for _, c2 := range cs {
 				a := callArgs(c2.Call)
-				if pi >= len(a) || !isLoadOfField(a[pi], c.fDefPinMem) {
+				if pi >= len(a) || !isDefPinMemPtrD(a[pi], depth+1) {
 					return false
 				}
 			}
@@ -316,6 +317,7 @@ func checkC12(e *Engine, r *Report) {
 		}
 		return false
 	}
+	isDefPinMemPtr := func(v ssa.Value) bool { return isDefPinMemPtrD(v, 0) }
 	pinMemOffBLType := func(fn *ssa.Function, target ssa.Value) Assumption {
 		return func(cond ssa.Value) (bool, bool) {
 			if b, ok := cond.(*ssa.BinOp); ok && (b.Op == token.EQL || b.Op == token.NEQ) {
